@@ -236,9 +236,18 @@ class _Recording(RecordUpdateListener):
         self.w = world
         self.lid = lid
 
+    def __hash__(self):
+        # small distinct hashes: a set of these iterates in ascending id order (spy first), independent of addresses,
+        # so "who was called before a callback raised" is reproducible
+        return 0 if self.lid is None else int(self.lid)
+
     def async_update_records(self, zc, now, records):
         w = self.w
         pairs = [(C.rec_line(u.new), None if u.old is None else C.rec_line(u.old)) for u in records]
+        for u in records:
+            n, o = u[0], u[1]        # the legacy `new, old = update` protocol (RecordUpdate.__getitem__)
+            if n is not u.new or o is not u.old:
+                raise RuntimeError("RecordUpdate.__getitem__ disagrees with .new/.old")
         w.log.append(("u", self.lid, int(now), pairs, w.snapshot()))
         self._react(1)
 
@@ -258,10 +267,30 @@ class _Recording(RecordUpdateListener):
                 if kind:
                     w.rm.async_add_listener(t, None)
                     w.executed.append((ph, lid, 1, target))
-                elif t in w.rm.listeners:  # set.remove raises KeyError otherwise
-                    w.rm.async_remove_listener(t)
+                else:
+                    # no guard: removing a listener that is not registered is what a browser's `_async_cancel` or a lookup's
+                    # `finally` does when somebody else removed it first
+                    try:
+                        w.rm.async_remove_listener(t)
+                    except BaseException:
+                        w.failed.append((ph, lid, 0, target))
+                        w.zc.notified = keep
+                        raise
                     w.executed.append((ph, lid, 0, target))
         w.zc.notified = keep
+
+
+class _Legacy(RecordUpdateListener):
+    """a listener of the old style: only `update_record` (reached through the base class's async_update_records shim)"""
+
+    def __init__(self, world):
+        self.w = world
+
+    def __hash__(self):
+        return 6
+
+    def update_record(self, zc, now, record):
+        self.w.legacy.append(C.rec_line(record))
 
 
 class _SvcListener(ServiceListener):
@@ -338,12 +367,16 @@ class World:
         self.engine = _EngineStub(self.zc)
         self.spy = _Recording(self, None)
         self.rm.async_add_listener(self.spy, None)
+        self.legacy = []
+        self.legacy_listener = _Legacy(self)
+        self.rm.async_add_listener(self.legacy_listener, None)
         self._listeners = {}
         self.browsers = {}
         self.log = []
         self.cbs = []
         self.reacts = []
         self.executed = []
+        self.failed = []
 
     def listener(self, lid):
         l = self._listeners.get(lid)
@@ -388,7 +421,8 @@ class World:
     def apply(self, op, observe=True):
         """run one op on the real code; returns its observation (dict of strings / lists of strings);
         with observe=False the readers are not evaluated (`R` is None)"""
-        self.log, self.cbs, self.executed = [], [], []
+        self.log, self.cbs, self.executed, self.failed = [], [], [], []
+        self.legacy = []
         self.zc.notified = 0
         k = op[0]
         obs = {"k": k, "err": None}
@@ -413,9 +447,7 @@ class World:
             elif k == "LA":
                 self.rm.async_add_listener(self.listener(op[1]), None)
             elif k == "LR":
-                l = self.listener(op[1])
-                if l in self.rm.listeners:
-                    self.rm.async_remove_listener(l)
+                self.rm.async_remove_listener(self.listener(op[1]))   # unguarded: absent -> whatever the code does
             elif k == "BA":
                 _CLOCK[0] = float(op[2])
                 b = _zc_browser._ServiceBrowserBase(self.zc, list(op[3]), listener=_SvcListener(self, op[1]))
@@ -449,12 +481,14 @@ class World:
         obs["calls"] = [[e[0], e[1], e[3], e[4], e[2]] for e in self.log if e[1] is not None]
         obs["order"] = [[e[0], e[1]] for e in self.log]
         obs["executed"] = [list(x) for x in self.executed]
+        obs["failed"] = [list(x) for x in self.failed]
+        obs["legacy"] = list(self.legacy)
         obs["n"] = self.zc.notified
         obs["cb"] = [list(x) for x in self.cbs]
         obs["ids"] = self.registered_ids()
         obs["S"] = self.snapshot()
-        obs["R"] = self.readers() if observe else None
-        obs["P"] = self.ptr_view() if observe else None
+        obs["R"] = self.readers() if (observe or obs["err"]) else None   # an op that raised ends the history: observe it
+        obs["P"] = self.ptr_view() if (observe or obs["err"]) else None
         return obs
 
 
@@ -503,6 +537,10 @@ def _ids(l):
 
 def render(obs):
     k = obs["k"]
+    if obs["err"] and k == "D" and obs["u"] is not None:
+        pairs = sep(",", ["%s>%s" % (n, "~" if o is None else o) for n, o in obs["u"]])
+        return "D err=%s u=%s c1=%s s1=%s c2=%s s2=%s %s" % (obs["err"], pairs, _ids(obs["c1"]), obs["s1"] if obs["s1"] is not None else "!",
+                                                           _ids(obs["c2"]), obs["s2"] if obs["s2"] is not None else "!", render_readers(obs["R"]))
     if obs["err"]:
         return "%s err=%s" % (k, obs["err"])
     if k == "D":
@@ -940,8 +978,25 @@ def gen_datagram(rng, vocab, ref, opts):
     return recs
 
 
-def gen_reacts(rng, registered, pool):
-    """scripted reactions with pairwise distinct targets (so that set iteration order cannot matter)"""
+def gen_reacts(rng, registered, pool, p_absent=0.0):
+    """scripted reactions.  Mostly pairwise distinct targets; sometimes the patterns in which a listener is removed although it
+    is not (any more) registered: A removes B and B removes itself, the same listener removed twice, a never-added one removed"""
+    x = rng.random()
+    if x < p_absent and len(pool) >= 2:
+        ph = rng.choice([1, 2])
+        live = sorted(registered) or list(pool)
+        a = rng.choice(live)
+        others = [l for l in pool if l != a]
+        b = rng.choice([l for l in live if l != a] or others)
+        kind = rng.choice(["a-removes-b-b-removes-itself", "twice", "never-added", "two-phases"])
+        if kind == "a-removes-b-b-removes-itself":
+            return [[ph, a, 0, b], [ph, b, 0, b]]
+        if kind == "twice":
+            return [[ph, a, 0, b], [ph, a, 0, b]]
+        if kind == "two-phases":
+            return [[1, a, 0, b], [2, a, 0, b]]
+        absent = [l for l in pool if l not in registered]
+        return [[ph, a, 0, rng.choice(absent or others)]]
     out = []
     targets = list(pool)
     rng.shuffle(targets)
@@ -977,7 +1032,10 @@ def gen_history(rng, depth, opts):
             ref.purge(t)
         elif pool and x < opts.get("p_purge", 0.18) + opts.get("p_listener", 0.0):
             lid = rng.choice(pool)
-            if lid in registered and rng.random() < 0.6:
+            if rng.random() < opts.get("p_remove_absent", 0.0):
+                ops.append(["LR", lid])          # possibly not registered
+                registered.discard(lid)
+            elif lid in registered and rng.random() < 0.6:
                 ops.append(["LR", lid])
                 registered.discard(lid)
             else:
@@ -985,7 +1043,7 @@ def gen_history(rng, depth, opts):
                 registered.add(lid)
         else:
             recs = gen_datagram(rng, vocab, ref, opts)
-            reacts = gen_reacts(rng, registered, pool) if pool and opts.get("reacts") else []
+            reacts = gen_reacts(rng, registered, pool, opts.get("p_remove_absent", 0.0)) if pool and opts.get("reacts") else []
             ops.append(["D", now, recs, reacts])
             ref.datagram(now, recs)
             # the steering copy of the listener set is approximate (reactions are not tracked); that is fine
